@@ -122,6 +122,9 @@ def check(ctx):
     # ---- R8 emission in templates -------------------------------------------------
     _r8(ctx)
     rhs_writers(ctx, "R9")
+    # occurrences count: no set / dict keyed by the species stands between a reactant list and the terms built from it
+    from ..multiplicity import rule as multiplicity_rule
+    multiplicity_rule(ctx, "R10", ['ode'], "the right-hand side")
 
 
 def reaction_sites(ctx, m, r_loss="R2", r_gain="R3"):
